@@ -3,7 +3,7 @@
    The programme model is Model/Reloc.v (items contributing bytes as a function of the base),
    the value domain is Model/Poly.v (LinearPolynomial). *)
 From Coq Require Import String List ZArith Bool.
-From Verif Require Import Base.Res Base.Bytes Model.Poly Model.Reloc Model.Insns Gen.GenGetAsInt Proofs.PolyP Proofs.RelocP Proofs.RelocInsnsP.
+From Verif Require Import Base.Res Base.Bytes Model.Poly Model.Reloc Model.Insns Gen.GenGetAsInt Gen.GenMeta Proofs.PolyP Proofs.RelocP Proofs.RelocInsnsP.
 Import ListNotations.
 Open Scope Z_scope.
 
@@ -89,6 +89,27 @@ Theorem C09_sob_field_is_insns : forall b pos op e,
 Proof. exact sob_field_is_enc_offset. Qed.
 Print Assumptions C09_sob_field_is_insns.
 
+(* the padding directives of the model are the bodies regenerated from metacommands.py on every run:
+   `.align n` for EVERY count n >= 0 (the padding is (-address) mod n: a body that computes it with a
+   bit mask is not this function unless n is a power of two), `.even`, `.odd` *)
+Theorem C09_align_is_generated : forall b pos m, 0 <= m -> item_bytes b pos (Align m) = body_align (b + pos) m.
+Proof. exact align_is_generated. Qed.
+Print Assumptions C09_align_is_generated.
+
+Theorem C09_even_is_generated : forall b pos, item_bytes b pos (Align 2) = body_even (b + pos).
+Proof. exact even_is_generated. Qed.
+Print Assumptions C09_even_is_generated.
+
+Theorem C09_odd_is_generated : forall b pos, item_bytes b pos Odd = body_odd (b + pos).
+Proof. exact odd_is_generated. Qed.
+Print Assumptions C09_odd_is_generated.
+
+(* the hypothesis of the law for alignment: for every count n > 0 the padding depends on the address
+   only through (address mod n); so bases congruent modulo n (516 and 1032 for n = 6) pad alike *)
+Theorem C09_align_padding_congruent : forall m a1 a2, 0 < m -> (a2 - a1) mod m = 0 -> (- a2) mod m = (- a1) mod m.
+Proof. exact align_padding_congruent. Qed.
+Print Assumptions C09_align_padding_congruent.
+
 (* ---- the law.  For every programme of the model and every two bases at which it assembles
         (D9 for their difference: alignment moduli divide it; branch targets move with the base;
         bytes hold no address), the second image is the first one patched at exactly the words
@@ -148,6 +169,12 @@ Example C09_ex_images :
   image 512 ex_prog = Ok [192;23;0;2; 193;21;2;2; 251;1; 194;29;242;255; 0;0; 0;2] /\
   image 1024 ex_prog = Ok [192;23;0;4; 193;21;2;4; 251;1; 194;29;242;255; 0;0; 0;4] /\
   abs_words 512 ex_prog = [(2,1); (6,1); (16,1)] /\ d9 512 ex_prog = true.
+Proof. vm_compute. repeat split. Qed.
+(* `.align 6` at bases 516 and 1032 (congruent modulo 6): same padding, the label word moves by delta *)
+Example C09_ex_align6 :
+  image 516 [Fixed [160; 0]; Align 6; AbsWord (ALab 6)] = Ok [160; 0; 0; 0; 0; 0; 10; 2] /\
+  image 1032 [Fixed [160; 0]; Align 6; AbsWord (ALab 6)] = Ok [160; 0; 0; 0; 0; 0; 14; 4] /\
+  d9 516 [Fixed [160; 0]; Align 6; AbsWord (ALab 6)] = true.
 Proof. vm_compute. repeat split. Qed.
 (* why D9 excludes a byte that holds an address: `.link b / a: .byte a` assembles at b = 8 and b = 16,
    abs_words lists nothing, yet the images differ -- the law would be false without the exclusion *)
